@@ -191,6 +191,21 @@ def judge(case):
         pg = gen.rand_polygon(r, 3, 6, 3)
         n = K.polygon_normal(pg[1])
         off = K.mul(gen._reduce(n), r.choice((F(1, 4), F(1, 2), 1, -1)))
+        if r.random() < 0.12:
+            # a polygon in the plane x_c = -1 (or -2) with a vertex (t, u, w), u, w in {0,1}, plus the off-plane point that
+            # differs from that vertex only in t = -2 (-1): CPython hashes the two alike
+            c_ = r.randrange(3)
+            t0, t1 = r.choice(((-1, -2), (-2, -1)))
+            u0, w0 = r.choice((0, 1)), r.choice((0, 1))
+            s1, s2 = r.choice((2, 3, 4)), r.choice((2, 3, 4))
+            du, dw = (1 if u0 == 0 else -1), (1 if w0 == 0 else -1)
+            inpl = [gen.slab_pt(c_, t0, u0, w0), gen.slab_pt(c_, t0, u0 + du * s1, w0), gen.slab_pt(c_, t0, u0 + du * s1, w0 + dw * s2), gen.slab_pt(c_, t0, u0, w0 + dw * s2)]
+            twin = gen.slab_pt(c_, t1, u0, w0)
+            pts = list(inpl)
+            pts.insert(r.randrange(1, 5), twin)
+            _expect_raise(mu, lambda: G.ConvexPolygon(tuple(_P(G, x) for x in pts)), cls + ":off-plane-point-hashes-like-a-vertex",
+                          "ConvexPolygon with an off-plane point that differs from a vertex only in a coordinate -1 / -2")
+            return mu.result()
         if r.random() < 0.25:
             # a kite P0, A, B, R symmetric about the diagonal P0-R, with an off-plane point straight above R listed
             # BEFORE R: both have the same polar angle about the centre seen from P0
